@@ -20,7 +20,7 @@ ASSUMPTIONS = ["points are built by the affine model (vf/model/ec.py) from the p
 ENGINE = "hypothesis (algebraic laws)"
 TECHNIQUE = ("property-based testing (Hypothesis) of algebraic laws: bilinearity, additivity, inversion, order r, unit on infinity, refusal of off-curve input")
 _REQ = [f"{law}:{m}" for m in pc.MODULES for law in ("bilinear", "additive", "negation", "order", "infinity", "offcurve")]
-_REQ += ["additive:library_sum", "additive:library_sum_of_equal_points", "bilinear:raw_first", "bilinear:scaled", "bilinear:big_scalars", "infinity:rep", "offcurve:other_argument_infinity", "offcurve:origin"]
+_REQ += ["additive:library_sum", "additive:library_sum_of_equal_points", "bilinear:raw_first", "bilinear:scaled", "bilinear:big_scalars", "infinity:rep", "offcurve:other_argument_infinity", "offcurve:origin", "offcurve:valid_xy_other_z"]
 REQUIRED_LABELS = {"quick": _REQ, "thorough": _REQ}
 
 
@@ -183,13 +183,25 @@ def o_offcurve(ctx, case):
         bad = (good[0], F.add(good[1], one))
     elif how == "x+1":
         bad = (F.add(good[0], one), good[1])
+    elif how == "z_only":
+        bad = None                                   # built below, once the scaling value is known
     else:
         v = case["v"]
         bad = (F.el(v[0]) if g == "G2" else v[0] % C.p, F.el(v[1]) if g == "G2" else v[1] % C.p)
-    if C.on_curve(g, bad):
-        return      # the perturbation landed on the curve (x+1 with the same y never does; random: 1/p)
     scale = pc.unscale(case.get("s"))
     opt = name.startswith("optimized")
+    z_only = how == "z_only"
+    if z_only:
+        # projective modules only: the triple (X, Y, z) where (X, Y) satisfies the AFFINE equation and z is
+        # neither 0 nor 1 - it denotes (X/z, Y/z), which is off the curve
+        if not opt:
+            return
+        zv = scale if scale is not None else (2 if g == "G1" else (2, 0))
+        if zv == one or F.is_zero(zv):
+            zv = 3 if g == "G1" else (3, 0)
+        bad = (F.div(good[0], zv), F.div(good[1], zv))
+    if C.on_curve(g, bad):
+        return      # the perturbation landed on the curve (x+1 with the same y never does; random: 1/p)
     other = case.get("other", "finite")       # the OTHER argument: a subgroup point or infinity
     rep = case.get("rep", 0)
     if other == "inf":
@@ -197,8 +209,17 @@ def o_offcurve(ctx, case):
         oP = pc.lib_pt(name, "G1", None, inf_rep=INF_G1[rep % 3] if opt else None)
     else:
         oQ, oP = pc.lib_pt(name, "G2", pc.kG(curve, "G2", 3)), pc.lib_pt(name, "G1", pc.kG(curve, "G1", 3))
-    Q = pc.lib_pt(name, "G2", bad, scale=scale) if slot == "Q" else oQ
-    Pt = pc.lib_pt(name, "G1", bad, scale=scale) if slot == "P" else oP
+    if z_only:
+        # exactly the coordinates of the valid point, with another z
+        b_ = pc.lib_pt(name, g, bad, scale=zv)
+        v_ = pc.lib_pt(name, g, good)
+        if not (b_[0] == v_[0] and b_[1] == v_[1] and b_[2] != v_[2]):
+            raise HarnessError("z_only construction did not keep (X, Y)")
+        Q, Pt = (b_, oP) if slot == "Q" else (oQ, b_)
+        ctx.label("offcurve:valid_xy_other_z")
+    else:
+        Q = pc.lib_pt(name, "G2", bad, scale=scale) if slot == "Q" else oQ
+        Pt = pc.lib_pt(name, "G1", bad, scale=scale) if slot == "P" else oP
     try:
         out = pc.pm(name).pairing(Q, Pt)
     except ValueError:
@@ -284,7 +305,7 @@ def t_cheap(ctx, module, n):
                 d["v"] = [[d["v"][0], 1], [d["v"][1], 2]] if g2 else [d["v"][0][0], d["v"][1][0]]
         return d
     strat = st.fixed_dictionaries({"module": st.just(name), "k": st.integers(1, 60), "slot": st.sampled_from(["Q", "P"]),
-                                   "how": st.sampled_from(["y+1", "x+1", "random", "origin", "x=0", "y=0"]), "v": v,
+                                   "how": st.sampled_from(["y+1", "x+1", "random", "origin", "x=0", "y=0"] + (["z_only", "z_only"] if opt else [])), "v": v,
                                    "other": st.sampled_from(["finite", "inf"]), "rep": st.integers(0, 2),
                                    "s": st.one_of(st.none(), st.none()) if not opt else st.none()}).map(fix)
     if opt:
@@ -293,6 +314,9 @@ def t_cheap(ctx, module, n):
         strat = st.tuples(strat, sq, sp).map(lambda t: dict(t[0], s=t[1] if t[0]["slot"] == "Q" else t[2]))
     ex = [{"module": name, "k": 2, "slot": s, "how": h, "v": None, "s": None, "other": o, "rep": 1}
           for s in ("Q", "P") for h in ("y+1", "x+1", "origin", "y=0") for o in ("finite", "inf")]
+    if opt:
+        ex += [{"module": name, "k": 5, "slot": s, "how": "z_only", "v": None, "s": None, "other": o, "rep": 0}
+               for s in ("Q", "P") for o in ("finite", "inf")]
     drive(ctx, f"off{name}", strat, lambda c: o_offcurve(ctx, c), n, ex)
 
 
